@@ -275,7 +275,7 @@ Section Family.
     - inv Hops. rename H1 into Ho. rename H2 into Hh.
       assert (Hstep : exists r1 out1, step root o = (r1, out1) /\ inv r1 /\
                         (forall cs, file_at r1 cs = pure_step (file_at root) o cs) /\ (is_save o = true -> out1 = RUnit)).
-      { destruct o as [p c|p|p|p|p|p|p|p m c|p m rs|p]; simpl in Ho; try contradiction;
+      { destruct o as [p c|p|p|p|p|p|p|p m c|p m rs|p|p|p|p]; simpl in Ho; try contradiction;
           try (match goal with |- exists r1 out1, step root ?o = _ /\ _ =>
                  destruct (readonly_step root o eq_refl) as [out1 Es1] end;
                exists root, out1; split; [exact Es1|]; split; [exact Hinv|]; split; [reflexivity | discriminate]).
